@@ -328,6 +328,17 @@ func runLegacyCase(c *h.Ctx, r *h.Report, cs legacyCase) {
 				What:   fmt.Sprintf("legacy options %s start a hub that accepts a subscriber with no token although allow_anonymous is false", line),
 				Replay: rp})
 		}
+		// the keys in effect are the configured ones: with neither subscriber_jwt_key nor jwt_key there is no
+		// subscriber key at all (every subscriber is anonymous, a presented token is not even looked at) — in
+		// particular the publisher's key does not verify subscriber tokens
+		if cs.Sub.Class == "absent" && cs.Jwt.Class == "absent" {
+			garbage := (&fixture{hub: hub, cookie: "mercureAuthorization"}).doGet(authParts{Headers: []string{"Bearer aaaaaaaaaaaaaaaaaaaaaaaaaaaaaaaaaaaa.bbbbbbbbbbbbbbbbbbbbbbbbbbbbbbbbbbbbbbbbbbbb.cccccccccccccccccccccccccccccccccccccccccc"}}, hubURL, url.Values{"topic": {"t"}}, nil).Status()
+			if o.HasSubscriberKey || (cs.Anonymous && garbage != 200) {
+				r.Violate(h.Violation{Key: "C19:subscriber-key-in-effect-although-none-configured",
+					What:   fmt.Sprintf("legacy options %s configure no subscriber key, yet the hub verifies subscriber tokens (key function present: %v; a subscriber presenting an unverifiable token is answered %d instead of being treated as anonymous)", line, o.HasSubscriberKey, garbage),
+					Replay: rp})
+			}
+		}
 		if cs.HBms != nil && *cs.HBms == 0 && o.Heartbeat != 0 {
 			r.Violate(h.Violation{Key: "C19:heartbeat-zero-not-applied",
 				What: fmt.Sprintf("heartbeat_interval=0s (documented: 0s to disable) yields an effective heartbeat of %v", o.Heartbeat), Replay: rp})
